@@ -388,6 +388,11 @@ func PutNamed(container []byte, signature interop.Signature,
 	addContainer(ctx, containerID, ownerID, cnr)
 
 	if name != "" {
+		key := append([]byte(nnsHasAliasKey), containerID...)
+		// container is being re-put under another name: release the previous one
+		if prev := storage.Get(ctx, key); prev != nil && prev.(string) != domain {
+			deleteNNSRecords(ctx, prev.(string))
+		}
 		if needRegister {
 			res := contract.Call(nnsContractAddr, "register", contract.All,
 				domain, runtime.GetExecutingScriptHash(), "ops@nspcc.ru",
@@ -399,7 +404,6 @@ func PutNamed(container []byte, signature interop.Signature,
 		contract.Call(nnsContractAddr, "addRecord", contract.All,
 			domain, recordtype.TXT, std.Base58Encode(containerID))
 
-		key := append([]byte(nnsHasAliasKey), containerID...)
 		storage.Put(ctx, key, domain)
 	}
 
